@@ -376,8 +376,34 @@ class EMClassAttr(EMBase):
         return self.b * self.gain
 
 
+class _Holder(object):
+    def __init__(self, W, b):
+        self.W = W
+        self.b = b
+
+
+class EMProxy(EMBase):
+    # the declared names are answered by __getattr__ (forwarded to a wrapped object): the proxy itself holds no
+    # entry for them, and must hold none after a call either
+    NAMES = ["W", "b"]
+
+    def __init__(self, W, b):
+        self.inner = _Holder(W, b)
+
+    def __getattr__(self, name):
+        if name in ("W", "b"):
+            return getattr(self.__dict__["inner"], name)
+        raise AttributeError(name)
+
+    def _W(self):
+        return self.W
+
+    def _b(self):
+        return self.b
+
+
 # kinds used by the C10 histories only (the other checks keep ALL_KINDS, whose references know W and b only)
-C10_EXTRA_KINDS = [EMClassAttr]
+C10_EXTRA_KINDS = [EMClassAttr, EMProxy]
 
 
 class EMCallProxy(EditableModule):
